@@ -204,7 +204,7 @@ def run(ck):
                 continue
             seen_src.add(src)
             progs.append({"toks": m, "mut": i, "kind": kind, "src": src, "ch": v["ch"], "layout": L["name"]})
-    ck.notes["programs"] = {"core_derivations": len(core), "of_derivations": len(vecs), "base_programs": nbase,
+    ck.notes["program_counts"] = {"core_derivations": len(core), "of_derivations": len(vecs), "base_programs": nbase,
                             "single_mutations_all": len(small) + len(rest), "mutations_run": len(progs) - nbase,
                             "covering_programs_mutated_exhaustively": len(cover), "their_mutations": len(small)}
     # ---- syntax.Parser
@@ -351,6 +351,8 @@ def run(ck):
             ck.sample({"src": p["src"], "mutation": p["kind"], "parser_bash": p["impl"]["bash"].get("err"), "bash_n": p["shell"]["bash"]["err"] or "rejected",
                        "parser_posix_ok": p["impl"]["posix"]["ok"], "dash_n_ok": p["shell"]["posix"]["ok"]})
     ck.cov["traces_validated_against_impl"] = len(progs) * 2
+    ck.cov["programs"] = len(progs)
+    ck.cov["disagreements_checked"] = sum(1 for o in obs if (o["impl"] == "ok") != (o["shell"] == "ok"))
     ck.cov["distinct_nontrivial"] = nt
     ck.cov["exhaustive"] = True
     ck.cov["rule"] = ("every core derivation of ShSyntax (valid in bash and posix, TLC BFS) x layouts; every single-token mutation of a "
